@@ -52,11 +52,14 @@ func (f *Typep) Call(s *slip.Scope, args slip.List, depth int) slip.Object {
 	}
 	switch ta := args[0].(type) {
 	case nil:
-		if strings.EqualFold("null", string(sym)) {
-			return slip.True
+		// nil is the empty list and a symbol: null symbol list sequence t.
+		for _, h := range []slip.Symbol{"null", slip.SymbolSymbol, slip.ListSymbol, slip.SequenceSymbol, slip.TrueSymbol} {
+			if strings.EqualFold(string(h), string(sym)) {
+				return slip.True
+			}
 		}
 	case slip.List:
-		if len(ta) == 0 && strings.EqualFold("null", string(sym)) {
+		if len(ta) == 0 && (strings.EqualFold("null", string(sym)) || strings.EqualFold(string(slip.SymbolSymbol), string(sym))) {
 			return slip.True
 		}
 		for _, h := range ta.Hierarchy() {
